@@ -13,7 +13,7 @@ VERIF_FAIL_PAT = re.compile(
 RLIMIT_PAT = re.compile(r"(resource limit|rlimit|timed? ?out)", re.I)
 # diagnostics that mean "the generated text is outside Verus' subset / does not type-check": never a violation
 UNSUPPORTED_PAT = re.compile(
-    r"(not supported|unsupported|does not (yet |currently )?support|not yet (supported|implemented)|not implemented|internal error|"
+    r"(not supported|unsupported|do(es)? not (yet |currently )?support|not yet (supported|implemented)|not implemented|internal error|"
     r"cannot find|mismatched types|expected .* found|unresolved|no method named|no field|cannot borrow|cannot move|borrow of moved|"
     r"is not in scope|trait bound|lifetime|cannot infer|duplicate specification|must have a decreases clause|"
     r"Could not automatically infer triggers|assume_specification|in exec mode|with mode (exec|spec|proof)|mode error|expected mode)", re.I)
